@@ -524,8 +524,10 @@ def _nothing_dropped(ctx, sync, graph, loop, cvar):
         confs = [n for n in fbody for c in C.node_calls(n)
                  if K.is_meth(c, '_configure') and c.args and
                  N.txt(c.args[0]) == var]
-        skips = [n for n in fbody if n.kind == 'stmt' and
-                 isinstance(n.ast, (ast.Continue, ast.Break))]
+        # an iteration may end early only after its configure call (the
+        # path search below); the loop itself must not be left early
+        skips = [e for e in K.loop_exit_edges(fl)
+                 if e.kind not in ('done', 'exc')]
         path = K.find_path(fl, [fl], cut_node=lambda n: n in confs,
                            cut_edge=lambda e, f=fl: e.src is f and
                            e.kind == 'done', follow_exc=False)
